@@ -263,6 +263,13 @@ func genC13(seed uint64, tier string) *Scenario {
 		in = genInput(r, p, true)
 		frags = p.Frags
 	}
+	if r.chance(1, 4) {
+		// the limit next to every other tuning option: it must stay the limit that was asked for
+		applyKnobs(r, &spec)
+		if r.chance(1, 3) {
+			spec.KeepOrder = true
+		}
+	}
 	sc.Res = []ReSpec{spec}
 	op := Op{Kind: c13Kinds[r.n(len(c13Kinds))], Re: 0, In: in, N: -1, Repl: pickRepl(r), TimeoutNs: -1}
 	if op.Kind == OpFindStringAt {
